@@ -242,6 +242,10 @@ class SRange:
             return getattr(self, name)
         return _MISSING
 
+    def pyvc_truthy(self, interp):
+        n = interp.call(interp.builtins['len'], [self], {})
+        return sym.truth(sym.lnot(sym.eq(n, 0)))
+
 
 class SeqVal:
     """a sequence of symbolic length: n items, item(j) for 0 <= j < n (the values a uniform loop yields / a comprehension builds)"""
@@ -293,6 +297,7 @@ class Frame:
 # ======================================================================================
 class Interp:
     def __init__(self, repo=REPO):
+        self.load_errors = []
         from . import extern
         self.repo = repo
         self.modules = {}
@@ -340,7 +345,15 @@ class Interp:
             pm = self.get_module(parent)
             pm.ns.setdefault(child, m)
         frame = Frame(m.ns, m)
-        self.run_block(tree.body, frame)
+        # Module bodies are executed statement by statement; a top-level statement the engine cannot execute (an unmodelled
+        # library call, say) is recorded and skipped instead of making the whole package -- and with it every check --
+        # unusable: whatever then depends on the missing name fails *inside the model only*, which the verdict policy treats as
+        # engine imprecision (undecided + bounded stand-in), never as a violation.
+        for st in tree.body:
+            try:
+                self.run_block([st], frame)
+            except (PyRaise, Unsupported, NeedConcrete) as e:
+                self.load_errors.append(f'{modname}:{getattr(st, "lineno", "?")}: {type(e).__name__}: {e}')
         m.executed = True
         if '.' in modname:
             parent, _, child = modname.rpartition('.')
@@ -1485,6 +1498,9 @@ class Interp:
             return v.pyvc_truthy(self)
         if isinstance(v, (ClassVal, FuncVal, ModuleVal, BoundMethod, Builtin, Partial, GenObj)):
             return True
+        if type(v).__module__.startswith('pyvc'):
+            # a model object whose truth value has not been given a meaning: never guess
+            raise Unsupported(f'truth value of a {type(v).__name__}')
         return bool(v)
 
     # -- attribute access --------------------------------------------------------------
